@@ -132,7 +132,7 @@ func c08Skew(c *core.Ctx, k c08Case) {
 	}
 	// model: fresh state, the segment was sealed with the key of epoch(t)
 	se := strings.Fields(c.Model.Ask("c08-slot %d", k.TNs))
-	h := strings.TrimPrefix(c.Model.Ask("c08-kc-new"), "ok ")
+	h := strings.TrimPrefix(c.Model.Ask("c08-kc-new %d", cipher.VerifConsts()["cacheValidIntervalNs"]), "ok ")
 	m := c.Model.Ask("c08-kc-try %s %d 0 %s", h, k.TNs+k.DNs, se[1])
 	c.Compared()
 	if !strings.HasPrefix(m, "ok key="+idx+" ") {
@@ -200,13 +200,13 @@ func c08Ts(c *core.Ctx, k c08Case) {
 }
 
 func c08Minute(c *core.Ctx, k c08Case) {
-	t0 := time.Now()
-	_, stamp := protocol.VerifMarshalSession(protocol.VerifSession{Protocol: 2})
-	_, stamp2 := protocol.VerifMarshalDataAck(protocol.VerifDataAck{Protocol: 6})
-	if s := t0.Unix() % 60; s < 2 || s > 57 {
+	if _, stable := nowMinute(); !stable {
 		c.Res.Discarded++
 		return
 	}
+	t0 := time.Now()
+	_, stamp := protocol.VerifMarshalSession(protocol.VerifSession{Protocol: 2})
+	_, stamp2 := protocol.VerifMarshalDataAck(protocol.VerifDataAck{Protocol: 6})
 	c.Eval("minute", true)
 	m := c.Model.Ask("c08-minute %d", t0.UnixNano())
 	c.Compared()
@@ -247,7 +247,7 @@ func c08History(c *core.Ctx, k c08Case) {
 	hp := core.UnHex(k.Pass)
 	cipher.VerifResetCipherCache()
 	d, _ := cipher.VerifNewStatelessDecryptor(hp)
-	h := strings.TrimPrefix(c.Model.Ask("c08-kc-new"), "ok ")
+	h := strings.TrimPrefix(c.Model.Ask("c08-kc-new %d", cipher.VerifConsts()["cacheValidIntervalNs"]), "ok ")
 	keysAt := map[int64][][]byte{}
 	keysFor := func(epoch int64) [][]byte {
 		if v, ok := keysAt[epoch]; ok {
@@ -321,7 +321,7 @@ func c08History(c *core.Ctx, k c08Case) {
 				return
 			}
 		}
-		// model: any jitter in [0, 5 s) is allowed; 0 and 4999 ms are the two extreme behaviours
+		// model: any jitter the code can draw is allowed; 0 and cacheValidMaxJitterMs-1 are the two extreme behaviours
 		suffix := ""
 		if op.Kind == "try" {
 			suffix = fmt.Sprintf(" %d", nowEpoch+int64(op.SenderSlot)*120)
@@ -329,7 +329,7 @@ func c08History(c *core.Ctx, k c08Case) {
 		parts := strings.SplitN(ask, " ", 2)
 		matched := false
 		var seen []string
-		for _, j := range []int{0, 4999} {
+		for _, j := range []int64{0, cipher.VerifConsts()["cacheValidMaxJitterMs"] - 1} {
 			m := c.Model.Ask("c08-kc-peek-%s %s %d%s", parts[0], parts[1], j, suffix)
 			seen = append(seen, m)
 			// what the decryptor holds is not observable after a direct cache lookup
@@ -348,7 +348,7 @@ func c08History(c *core.Ctx, k c08Case) {
 		}
 		c.Compared()
 		if !matched {
-			c.Disagree("C08/corr/cache-history", fmt.Sprintf("op %d (%s at %dns): code %s; model with jitter 0 / 4999 ms: %s", i, op.Kind, op.NowNs, real, strings.Join(seen, " | ")), k)
+			c.Disagree("C08/corr/cache-history", fmt.Sprintf("op %d (%s at %dns): code %s; model with minimal / maximal jitter: %s", i, op.Kind, op.NowNs, real, strings.Join(seen, " | ")), k)
 			return
 		}
 	}
@@ -416,6 +416,9 @@ func c08Instants(c *core.Ctx, n int) []int64 {
 }
 
 func init() {
+	// the key-schedule and cache constants go into lean/Mieru/Gen/Consts.lean (tie T): the theorems
+	// `consts_tie` (C08) and `spec_consts_match_code` (C09) are about these regenerated values
+	core.AddConsts(cipher.VerifConsts)
 	core.Register("C08", &core.Scenario{
 		Run: func(c *core.Ctx) {
 			c.Res.Rule = "instants = multiples of 60 s and 120 s (1970, 2023, 2100, 2255) ± {0,1ns,1s,59s,60s,61s} plus random instants incl. within 1 µs of the rounding tie; skews d = ±{0,1ns,1s,59s,60s-1ns,60s,60s+1ns,61s,119s,120s,121s,179s,180s,239s,240s-1ns,240s,241s,300s,1h}; stamps k = -3..3 minutes and absolute stamps at the uint32 wrap for both metadata kinds; Mid/WithinRange on random and wrap-adjacent triples; histories of 20-60 getCachedCiphers/tryDecryptAt calls with non-monotonic instants walking across slot boundaries and the 25-30 s validity zone. Distinct = distinct canonical case; non-trivial = a decrypt succeeded / a history ran."
